@@ -577,6 +577,9 @@ func redactQueryValues(obj *orderedmap.OrderedMap[string, any], redactFieldNames
 						newObj.Set(redactedKey, v)
 					}
 				}
+			} else {
+				// Keep null values: dropping the key would change the query shape
+				newObj.Set(redactedKey, v)
 			}
 		}
 	}
